@@ -1,0 +1,41 @@
+//go:build verif
+
+package dcp
+
+import (
+	"os"
+
+	"github.com/asaskevich/EventBus"
+	"github.com/prometheus/client_golang/prometheus"
+
+	"github.com/Trendyol/go-dcp/config"
+	"github.com/Trendyol/go-dcp/couchbase"
+	"github.com/Trendyol/go-dcp/models"
+)
+
+// VerifNewDcp builds the dcp struct around a supplied couchbase.Client exactly as
+// newDcp does after connecting. Only compiled with the `verif` build tag.
+func VerifNewDcp(cfg *config.Dcp, client couchbase.Client, consumer models.Consumer,
+	version *couchbase.Version, bucketInfo *couchbase.BucketInfo,
+) Dcp {
+	return &dcp{
+		client:           client,
+		consumer:         consumer,
+		config:           cfg,
+		version:          version,
+		bucketInfo:       bucketInfo,
+		apiShutdown:      make(chan struct{}, 1),
+		cancelCh:         make(chan os.Signal, 1),
+		stopCh:           make(chan struct{}, 1),
+		readyCh:          make(chan struct{}, 1),
+		metricCollectors: []prometheus.Collector{},
+		eventHandler:     models.DefaultEventHandler,
+		bus:              EventBus.New(),
+	}
+}
+
+// VerifBus exposes the event bus of a Dcp built by VerifNewDcp.
+func VerifBus(d Dcp) EventBus.Bus { return d.(*dcp).bus }
+
+// VerifNewDcpConfig exposes newDcpConfig.
+func VerifNewDcpConfig(path string) (config.Dcp, error) { return newDcpConfig(path) }
